@@ -123,14 +123,16 @@ def truthy(v):
 
 
 def py_eq(a, b):
-    """Python's a == b for the modelled values."""
-    return If(And(is_num(a), is_num(b)), num(a) == num(b),
+    """Python's a == b for the modelled values.  Encoding assumption A-undef-eq: no user value claims to be equal to the
+    UNDEF sentinel (an object whose __eq__ answers True for everything, like unittest.mock.ANY, is outside the model)."""
+    return If(Or(a == Val.Undef, b == Val.Undef), a == b,
+           If(And(is_num(a), is_num(b)), num(a) == num(b),
            If(Or(Val.is_Opq(a), Val.is_Opq(b)), opq_eq(a, b),
            If(And(Val.is_D(a), Val.is_D(b)), dict_c(Val.dk(a)) == dict_c(Val.dk(b)),
            If(And(Val.is_T(a), Val.is_T(b)), Or(a == b, opq_eq(a, b)),
            If(And(Val.is_EC(a), Val.is_EC(b)),
               And(ec_true(Val.ek(a)) == ec_true(Val.ek(b)), ec_false(Val.ek(a)) == ec_false(Val.ek(b))),
-              a == b)))))
+              a == b))))))
 
 
 def norm_key(v):
